@@ -14,6 +14,7 @@ def evOf (j : Json) : Event :=
   | "handoff" => .handoff
   | "decision" => .decision (jbool j "mine") (jnat j "status")
   | "deadline" => .deadline
+  | "real-deadline" => .deadline
   | _ => .cancel
 
 def ansOf (j : Json) : Registry.CallAns :=
